@@ -207,7 +207,13 @@ json::Value exprJ(Ctx& X, const Expr* E, int depth = 0) {
   }
   if (auto* c = dyn_cast<CallExpr>(S)) {
     std::string n = calleeName(X, c->getCallee());
-    if (isTransparent(n) && c->getNumArgs() >= 1) return exprJ(X, c->getArg(0), depth + 1);
+    if (isTransparent(n) && c->getNumArgs() >= 1) {
+      json::Value inner = exprJ(X, c->getArg(0), depth + 1);
+      // remember that the operand was passed through std::move (needed by the use-after-move rule)
+      if (n.size() >= 4 && n.compare(n.size() - 4, 4, "move") == 0)
+        if (auto* io = inner.getAsObject()) (*io)["mv"] = true;
+      return inner;
+    }
     auto it = X.eid.find(c);
     json::Object o{{"op", "call"}, {"p", pathOf(X, S)}};
     if (it != X.eid.end()) o["eid"] = it->second;
